@@ -7,6 +7,13 @@ V = os.path.dirname(os.path.dirname(os.path.abspath(__file__)))
 props = [json.loads(l) for l in open(os.path.join(V, "properties.jsonl"))]
 
 CLAIMED = {
+    "C03": dict(
+        technique="static analysis: syn provenance rules on dfa::do_minimize (no identity return, trimming chain, representative mapping, dead-state completion, non-empty blocks)",
+        text="Decides the structural necessary conditions of the minimiser on /repo's current source: it never returns its input unchanged, the result flows through the documented trimming chain, start/accepting/targets are mapped through the representative map (min of each final block), "
+        "missing transitions are completed to the dead state before refinement, only non-empty blocks enter the partition, and minimize is applied to the emitted and to every within-word automaton. It does NOT decide that the refinement loop reaches the coarsest partition.",
+        note="trusted: rustc's checks; RoaringBitmap set algebra; syn's parse",
+        design="5/C03",
+    ),
     "C14": dict(
         technique="static analysis: rustc-checked type-level witnesses (auto-trait reachability, compile-fail with twins) + syn span-use / ordering rules + MIR reachability",
         text="Decides non-interference of layout-dependent data with the output: no HumanSpan and no ExprId is reachable in the types the emitters receive (auto-trait witnesses compiled against /repo, each with a failing twin), arena ids have no ordering and their number is read only by Index/Display (Display unreachable from main), "
